@@ -120,6 +120,24 @@ def fixed_long_trailer_sequences():
     return out
 
 
+def fixed_negative_length_sequences():
+    """Content-Length values below zero, no chunked coding: not a length (the reader falls back to
+    read-until-close); whatever the reader makes of it, a completed exchange's record holds all the
+    bytes the server sent for it"""
+    out = []
+    for value in (b'-1', b'-5', b'-17', b' -1 ', b'-00012'):
+        for body in (b'the body the server sent', b'x'):
+            m = c08._mk(b'HTTP/1.1 200 OK\r\nContent-Type: text/plain\r\nContent-Length: ' + value + b'\r\n\r\n', body, body,
+                        framing='close', wf=False)
+            ok = c08._mk(b'HTTP/1.1 200 OK\r\nContent-Length: 5\r\n\r\n', b'after')
+            exs = [{'segs': [m.head, m.framed], 'eof': True, 'method': 'GET', 'version': 'HTTP/1.1', 'path': '/p0', 'msg': m,
+                    'surplus': b'', 'marker': b'', 'dedup': False},
+                   {'segs': [ok.message], 'eof': False, 'method': 'GET', 'version': 'HTTP/1.1', 'path': '/p1', 'msg': ok,
+                    'surplus': b'', 'marker': b'', 'dedup': False}]
+            out.append((exs, (True, False)))
+    return out
+
+
 def fixed_die_sequences():
     out = []
     for n in (1, 5, 12, 17, 30, 37):
@@ -989,7 +1007,7 @@ def run(ctx):
             e['path'] = '/p%d' % k
             e['dedup'] = False
         app.append((exs, o, wiring))
-    stream_warc(ctx, fixed_dedup_sequences() + fixed_die_sequences() + fixed_unsolicited_sequences() + fixed_long_trailer_sequences() + seqs + app)
+    stream_warc(ctx, fixed_dedup_sequences() + fixed_die_sequences() + fixed_unsolicited_sequences() + fixed_long_trailer_sequences() + fixed_negative_length_sequences() + seqs + app)
     stream_overlap(ctx, overlap_cases(ctx.subrng('overlap'), ctx.scale(60, 1500)))
     stream_appcrawl(ctx, appcrawl_cases(ctx.subrng('appcrawl'), ctx.scale(8, 200)))
     stream_interleave(ctx, interleave_cases(ctx.subrng('interleave'), ctx.scale(60, 1500)))
